@@ -121,27 +121,35 @@ Proof. exact ex_hunt4_runs. Qed.
 Print Assumptions C10_hunt4_example.
 
 (* ---------------------------------------------------------------- *)
-(* The way out (Model/AliasOut.v): values handed to the caller BY VALUE must not be the tables' own
-   storage, or a caller overwriting "its" value changes the retained state.  As found, five output
-   points share storage ([out_copies]): Notification.Addr.MAC, FindByMAC, IPAddrs, FindRouter, the
-   entries returned by ProcessMDNS (also kept in the cache); ProcessDNS / DNSFind copy. *)
-Theorem C10_outputs_do_not_alias_state_refuted : exists ops hp, crun out_copies ops hp <> hp.
+(* The way out (Model/AliasOut.v): values handed to the caller BY VALUE (a Notification, the []Addr of
+   FindByMAC / IPAddrs, the Router of FindRouter, the entries of ProcessMDNS, the DNSEntry of ProcessDNS /
+   DNSFind) must not be the tables' own storage, or a caller overwriting "its" value changes the retained
+   state.  As found five output points shared storage; repaired in /repo (731d6b1 2a8e70e 12c4150 66fd956
+   1fa6803); [out_copies] transcribes the repaired code. *)
+
+(* whatever values the caller obtains through the output points and whatever it writes through them,
+   the retained storage is unchanged *)
+Theorem C10_outputs_do_not_alias_state : forall ops hp, crun out_copies ops hp = hp.
+Proof. exact outputs_do_not_alias_state. Qed.
+Print Assumptions C10_outputs_do_not_alias_state.
+
+Example C10_outputs_example :
+  crun out_copies [CGet OP_notification_mac 0; CWrite 0 [255;255;255;255;255;254]; CGet OP_findrouter 1; CWrite 1 []]
+       [[2;0;0;0;0;1]; [254;128]] = [[2;0;0;0;0;1]; [254;128]].
+Proof. exact outputs_example. Qed.
+Print Assumptions C10_outputs_example.
+
+(* the code as found: a notification's MAC was the table's slice *)
+Theorem C10_outputs_as_found_refuted : exists ops hp, crun out_copies_as_found ops hp <> hp.
 Proof. exact outputs_refuted. Qed.
-Print Assumptions C10_outputs_do_not_alias_state_refuted.
+Print Assumptions C10_outputs_as_found_refuted.
 
-(* outside the recorded classes: a caller that obtains values only through copying output points cannot
-   change the retained storage, whatever it writes *)
-Theorem C10_outputs_do_not_alias_state_partial : forall ops hp,
-  uses_only out_copies ops = true -> crun out_copies ops hp = hp.
-Proof. exact (outputs_partial out_copies). Qed.
-Print Assumptions C10_outputs_do_not_alias_state_partial.
+(* even then, a caller that obtained values only through the copying output points could not change the storage *)
+Theorem C10_outputs_as_found_partial : forall ops hp,
+  uses_only out_copies_as_found ops = true -> crun out_copies_as_found ops hp = hp.
+Proof. exact (outputs_partial out_copies_as_found). Qed.
+Print Assumptions C10_outputs_as_found_partial.
 
-Example C10_outputs_partial_nonvacuous : uses_only out_copies [CGet OP_dns_entry 0; CWrite 0 [1;2;3]] = true.
+Example C10_outputs_partial_nonvacuous : uses_only out_copies_as_found [CGet OP_dns_entry 0; CWrite 0 [1;2;3]] = true.
 Proof. exact outputs_partial_nonvacuous. Qed.
 Print Assumptions C10_outputs_partial_nonvacuous.
-
-(* and it holds for every caller history once every output point copies *)
-Theorem C10_outputs_do_not_alias_state_if_copied : forall oc ops hp,
-  (forall k, oc k = true) -> crun oc ops hp = hp.
-Proof. exact outputs_do_not_alias. Qed.
-Print Assumptions C10_outputs_do_not_alias_state_if_copied.
